@@ -1,13 +1,15 @@
 //verif:package github.com/kstenerud/go-concise-encoding/internal/verifh/c07
-//verif:bounds the real cbe.Unmarshaler.Unmarshal / UnmarshalFromDocument with typed templates (8 Go types: struct with an unknown key in the document, struct with pointer and slice fields, *[]string, map[string][]uint8, []interface{}, [2]uint16, edge and node holders, interface{}) on the document the real cbe.Marshaler produces for a sample value (1 symbolic payload), cut at every position (symbolic payload) and with one byte replaced by a symbolic byte (fixed payload; quick: among the first 10 positions, thorough: at every position)
+//verif:bounds the real cbe.Unmarshaler.Unmarshal / UnmarshalFromDocument with typed templates (8 Go types: struct with an unknown key in the document, struct with pointer and slice fields, *[]string, map[string][]uint8, []interface{}, [2]uint16, edge and node holders, interface{}, and two documents written event by event: a marker at the top level, an unknown struct key whose value is an edge) on the document the real cbe.Marshaler produces for a sample value (1 symbolic payload), cut at every position (symbolic payload) and with one byte replaced by a symbolic byte (fixed payload; quick: among the first 10 positions, thorough: at every position)
 //verif:assume reflect, sync.Map and WaitGroup are the engine's emulation / sequential model
 package c07
 
 import (
 	"github.com/kstenerud/go-concise-encoding/cbe"
+	"github.com/kstenerud/go-concise-encoding/ce/events"
 	"github.com/kstenerud/go-concise-encoding/configuration"
 	"github.com/kstenerud/go-concise-encoding/internal/verifh"
 	"github.com/kstenerud/go-concise-encoding/internal/verifrt"
+	"github.com/kstenerud/go-concise-encoding/rules"
 	"github.com/kstenerud/go-concise-encoding/types"
 )
 
@@ -32,7 +34,7 @@ type T7Graph struct {
 	N types.Node
 }
 
-const numTyped = 8
+const numTyped = 10
 
 // typedSample returns a value to marshal and the template to unmarshal into
 // (the template of case 0 lacks a field the document has).
@@ -58,6 +60,40 @@ func typedSample(which int, v uint16) (value, template interface{}) {
 	return map[interface{}]interface{}{"k": []interface{}{v}}, nil
 }
 
+// eventDoc writes documents that no Go value marshals to (without recursion
+// support): a marker at the top level; a struct key the template does not have
+// whose value is an edge.
+func eventDoc(which int, v uint16) (doc []byte, template interface{}) {
+	cfg := configuration.New()
+	sink := &verifh.Sink{}
+	enc := cbe.NewEncoder(cfg)
+	enc.PrepareToEncode(sink)
+	r := rules.NewRules(enc, cfg)
+	r.OnBeginDocument()
+	r.OnVersion(0)
+	if which == 8 {
+		r.OnMarker([]byte("a"))
+		r.OnList()
+		r.OnPositiveInt(uint64(v))
+		r.OnReferenceLocal([]byte("a"))
+		r.OnEndContainer()
+		r.OnEndDocument()
+		return sink.Buf, nil
+	}
+	r.OnMap()
+	r.OnStringlikeArray(events.ArrayTypeString, "a")
+	r.OnPositiveInt(uint64(v))
+	r.OnStringlikeArray(events.ArrayTypeString, "unknown")
+	r.OnEdge()
+	r.OnPositiveInt(1)
+	r.OnPositiveInt(2)
+	r.OnPositiveInt(3)
+	r.OnEndContainer()
+	r.OnEndContainer()
+	r.OnEndDocument()
+	return sink.Buf, T7Known{}
+}
+
 // However a typed document is damaged, Unmarshal returns (a value or an
 // error): it does not hang and no panic escapes it.
 func typedDamaged(cut bool) {
@@ -66,13 +102,20 @@ func typedDamaged(cut bool) {
 	if cut {
 		v = verifrt.U16("payload")
 	}
-	value, template := typedSample(which, v)
 	cfg := configuration.New()
-	sink := &verifh.Sink{}
-	if err := cbe.NewMarshaler(cfg).Marshal(value, sink); err != nil {
-		verifrt.Assume(false) // not marshalable: nothing to damage
+	var doc []byte
+	var template interface{}
+	if which >= 8 {
+		doc, template = eventDoc(which, v)
+	} else {
+		var value interface{}
+		value, template = typedSample(which, v)
+		sink := &verifh.Sink{}
+		if err := cbe.NewMarshaler(cfg).Marshal(value, sink); err != nil {
+			verifrt.Assume(false) // not marshalable: nothing to damage
+		}
+		doc = sink.Buf
 	}
-	doc := sink.Buf
 	verifrt.Assume(len(doc) <= 48)
 	pos := verifrt.Choice("position", 48)
 	verifrt.Assume(pos < len(doc))
